@@ -242,14 +242,11 @@ func (w *response) Write(b []byte) (int, error) {
 	if isMulti {                                 // don't use buffered writer for muti-streamming writes it'll mix up streams
 		return msc.Write(b)
 	}
-	n, err := w.conn.buf.Writer.Write(b)
-	if err != nil {
-		return 0, err
-	}
-	if err = w.conn.buf.Writer.Flush(); err != nil {
-		return 0, err
-	}
-	return n, nil
+	// Write straight to the connection. Every message was flushed at once
+	// anyway, while the buffered writer reported 0 bytes on any error and
+	// kept failing after the first one, so that a write interrupted by a
+	// transient error could not be resumed (see WriteToWithRetry).
+	return w.conn.rwc.Write(b)
 }
 
 // WriteStream of MultistreamWriter interface
